@@ -935,7 +935,7 @@ Qed.
    those next hops and the prefix sets of RIB routers alone needs no fibUpdate (e.g. a dead neighbour that was nobody's
    next hop, an announcement by a router that is not in the RIB, our own announcements). *)
 Lemma desired_frame t t' :
-  t_me t' = t_me t -> t_rib t' = t_rib t ->
+  t_me t' = t_me t -> (forall r, In r (t_rib t') <-> In r (t_rib t)) ->
   (forall r, In r (t_rib t) -> face_of (t_nbr t') (re_nh1 r) = face_of (t_nbr t) (re_nh1 r) /\
                                 face_of (t_nbr t') (re_nh2 r) = face_of (t_nbr t) (re_nh2 r)) ->
   (forall r, In r (t_rib t) -> re_l1 r < cost_infinity -> re_name r <> t_me t ->
@@ -943,15 +943,17 @@ Lemma desired_frame t t' :
   forall p f, desired t' p f = desired t p f.
 Proof.
   intros Hme Hrib Hface Hpfx p f. unfold desired. apply min_cost_ext. intros c.
-  rewrite !cands_In. rewrite Hrib.
-  split; intros [r [Hr [He [Ha [Hx Hc]]]]]; exists r; (split; [exact Hr|]).
-  - assert (He' : elig t r = true) by (unfold elig in *; rewrite <- Hme; exact He).
+  rewrite !cands_In.
+  split; intros [r [Hr [He [Ha [Hx Hc]]]]]; exists r.
+  - apply Hrib in Hr. split; [exact Hr|].
+    assert (He' : elig t r = true) by (unfold elig in *; rewrite <- Hme; exact He).
     split; [exact He'|].
     unfold elig in He'. apply andb_true_iff in He'. destruct He' as [E1 E2].
     apply negb_true_iff, N.eqb_neq in E2.
     split; [unfold announces in *; rewrite <- (Hpfx r Hr ltac:(lia) E2 p); exact Ha|].
     split; [|exact Hc]. unfold get_fib_entries in *. destruct (Hface r Hr) as [F1 F2]. rewrite <- F1, <- F2. exact Hx.
-  - assert (He' : elig t' r = true) by (unfold elig in *; rewrite Hme; exact He).
+  - split; [apply Hrib; exact Hr|].
+    assert (He' : elig t' r = true) by (unfold elig in *; rewrite Hme; exact He).
     split; [exact He'|].
     unfold elig in He. apply andb_true_iff in He. destruct He as [E1 E2].
     apply negb_true_iff, N.eqb_neq in E2.
